@@ -36,7 +36,7 @@ TYPES: dict[str, tuple[Any, ...]] = {
 PLAIN = [t for t in TYPES if not t.startswith("VARCHAR(")]
 
 SPEC = {
-    "runs": {"quick": 250, "thorough": 30000},
+    "runs": {"quick": 250, "thorough": 5000},
     "wall": {"quick": 600, "thorough": 7200},
     "chunk": 8,
     "level": "exploration",
